@@ -12,7 +12,7 @@ theorem genObj_unfoldN (e : BEnv) (Γ : Ctx) (cfg : SerCfg) (f : Nat) (c : Class
     genObj e Γ cfg (f + 1) (.obj c fields) pns oq nl xt = (do
       let attrs ← nextAttribute cfg m fields (nl || m.nillable) xt
       let vals ← nextValue m fields
-      let body ← vals.mapM (genField e Γ cfg f (targetUri (resolveQ oq m)))
+      let body ← vals.mapM (genField e Γ cfg f (targetUri m.qname))
       return [Ev.start (resolveQ oq m)] ++ attrs ++ body.flatten ++ [Ev.end (resolveQ oq m)]) := by
   have hfetch : Γ.fetch c pns none = .ok m := by
     simp only [metaOf] at hm
@@ -262,36 +262,6 @@ theorem treesSax_eq_nil {ts : List Tree} (h : treesSax ts = []) : ts = [] := by
     simp only [treesSax, List.append_eq_nil_iff] at h
     exact absurd h.1 (treeSax_ne_nil t)
 
-/-- a field value that emits a child element has an item -/
-theorem emitsChild_items {var : XmlVar} {x : Val} (hs : Shape var x) (h : emitsChild var x = true) :
-    itemsN var x ≠ [] := by
-  cases hs with
-  | none _ _ => simp [emitsChild] at h; simp [itemsN, h]
-  | prim p _ _ => simp [itemsN]
-  | obj c fs _ _ => simp [itemsN]
-  | list xs ht _ _ => simp [emitsChild, ht] at h; simpa [itemsN, ht] using h
-  | toks ys ht _ hys =>
-    cases ys with
-    | nil => simp [emitsChild, ht] at h; simp [itemsN, ht, h]
-    | cons a l =>
-      have := hys a (by simp)
-      cases a <;> simp [Val.isArray] at this <;> simp [itemsN, ht]
-  | seqItem ht hl hy =>
-    cases x with
-    | none => simp [emitsChild] at h; simp [itemsN, h]
-    | list xs => simp [Val.isArray] at hy
-    | prim p => simp [itemsN]
-    | obj c fs => simp [itemsN]
-    | any q t tl a cs => simp [itemsN]
-    | derived q v t => simp [itemsN]
-    | attrs a => simp [itemsN]
-  | tokLists yss ht hl hyss =>
-    cases yss with
-    | nil => simp [emitsChild, ht] at h; simp [itemsN, ht, h]
-    | cons a l =>
-      obtain ⟨ys, rfl⟩ := hyss a (by simp)
-      simp [itemsN, ht]
-
 /-! ### all element vars of an object -/
 
 theorem All2_flatten_nil {α β γ : Type} {R : α → List β → Prop} (T : α → List γ) {l : List α}
@@ -306,7 +276,7 @@ theorem All2_flatten_nil {α β γ : Type} {R : α → List β → Prop} (T : α
 /-- generator + writer of all emitted pairs -/
 theorem body_genN (e : BEnv) (Γ : Ctx) (cfg : SerCfg) (M : NsMap) (ns : Option Str)
     (rec : XmlVar → Val → Tree) {m : XmlMeta} (chunks : List (XmlVar × Val)) (f : Nat)
-    (h : ∀ c ∈ chunks, ElemFactsN m c.1 ∧ Shape c.1 c.2 ∧ (c.2 ≠ .none ∨ c.1.nillable = true) ∧
+    (h : ∀ c ∈ chunks, ChunkEq e Γ cfg c.1 ∧ Shape c.1 c.2 ∧ (c.2 ≠ .none ∨ c.1.nillable = true) ∧
       ∀ y ∈ itemsN c.1 c.2, ∃ evs,
         itemGen e Γ cfg c.1 ns (chunkFuel c.2 f) y = .ok evs ∧
         SubW M (isDatatype Γ) evs (treeSax (itemTreeNN M rec c.1 y))) :
@@ -319,7 +289,7 @@ theorem body_genN (e : BEnv) (Γ : Ctx) (cfg : SerCfg) (M : NsMap) (ns : Option 
       (chunkTrees M (itemTreeNN M rec c.1) c.1 c.2 = [] → evs = []))
     chunks (fun c hc => by
       obtain ⟨hf, hs, hx, hit⟩ := h c hc
-      exact varGN e Γ cfg M ns _ hf hs hx f hit)
+      exact varGN' e Γ cfg M ns _ f (hf _ hs hx ns f) hit)
   refine ⟨body, hb, ?_, ?_⟩
   · rw [treesSax_flatMap]
     exact BodyW_forall₂ _ chunks body (hall.mono (fun _ _ h => h.1))
